@@ -142,7 +142,7 @@ impl Allocator {
     // allocated (hibitset's own hard limit), fewer than 2^31-3 reuses of one index.
     pub open spec fn headroom_n(&self, m: int) -> bool {
         &&& self.max_id@ + m <= 0x100_0003
-        &&& forall|i: int| -(i32::MAX - m) < #[trigger] self.gid(i) && self.gid(i) < i32::MAX - m
+        &&& forall|i: u32| -(i32::MAX - m) < #[trigger] self.gid(i as int) && self.gid(i as int) < i32::MAX - m
     }
     // public operations demand a margin of 3, leaf functions of 2 (one batch kill moves a generation by at most 1)
     pub open spec fn headroom(&self) -> bool { self.headroom_n(3) }
@@ -342,9 +342,10 @@ pub proof fn lemma_alloc(o: &Allocator, n: &Allocator, id: u32, now: bool)
             assert(n.cache@[k] == i);
         }
     }
-    assert forall|i: int| -(i32::MAX - 2) < #[trigger] n.gid(i) && n.gid(i) < i32::MAX - 2 by {
-        assert(-(i32::MAX - 3) < o.gid(i) && o.gid(i) < i32::MAX - 3);
+    assert forall|i: u32| -(i32::MAX - 2) < #[trigger] n.gid(i as int) && n.gid(i as int) < i32::MAX - 2 by {
+        assert(-(i32::MAX - 3) < o.gid(i as int) && o.gid(i as int) < i32::MAX - 3);
         assert(-(i32::MAX - 3) < o.gid(id as int) && o.gid(id as int) < i32::MAX - 3);
+        if i != id { assert(n.gid(i as int) == o.gid(i as int)); }
     }
 }
 
@@ -489,9 +490,10 @@ pub proof fn lemma_kill_iter(o: &Allocator, p: &Allocator, n: &Allocator, d: Seq
     }
     assert(n.wf());
     // ---- headroom
-    assert forall|k: int| -(i32::MAX - 2) < #[trigger] n.gid(k) && n.gid(k) < i32::MAX - 2 by {
-        assert(-(i32::MAX - 2) < p.gid(k) && p.gid(k) < i32::MAX - 2);
+    assert forall|k: u32| -(i32::MAX - 2) < #[trigger] n.gid(k as int) && n.gid(k as int) < i32::MAX - 2 by {
+        assert(-(i32::MAX - 2) < p.gid(k as int) && p.gid(k as int) < i32::MAX - 2);
         assert(-(i32::MAX - 3) < o.gid(i as int) && o.gid(i as int) < i32::MAX - 3);
+        if k != i { assert(n.gid(k as int) == p.gid(k as int)); }
     }
     // ---- abstract state
     assert forall|j: u32| n.hw(j) == p.hw(j) by {
